@@ -367,6 +367,12 @@ def mutations(tree):
                 yield f'delete {k}', path + (k,), without_key(tree, path + (k,))
         if key == 'name' and isinstance(node, str):
             yield 'unknown component', path, with_value(tree, path, 'no_such_component')
+        if path == ('reset_function',) and isinstance(node, dict):
+            # well-formed values for reserved keys the component does not take: validated, then ignored - the environment
+            # is the one built without them
+            for k, v in (('shape', [3, 9]), ('layout', [2, 3]), ('colors', ['RED'])):
+                if isinstance(node, dict) and k not in node:
+                    yield f'unaccepted {k} added', path + (k,), with_value(tree, path, dict(node, **{k: v}))
         if key == 'shape':
             n = node[0]
             for label, v in (('shape [n]', [n]), ('shape [n,n,n]', [n, n, n]), ('shape [0,n]', [0, n]), ('shape [-1,n]', [-1, n]),
@@ -376,6 +382,9 @@ def mutations(tree):
             for label, v in (('colour unknown', node[:-1] + ['PURPLE']), ('colour lower-case', node[:-1] + [node[-1].lower()]),
                              ('colour duplicate', node + [node[0]]), ('colour empty', [])):
                 yield label, path, with_value(tree, path, v)
+            if 'NONE' not in node:
+                yield 'colour NONE added', path, with_value(tree, path, node + ['NONE'])
+                yield 'colour NONE first', path, with_value(tree, path, ['NONE'] + node)
         if key == 'action_space' and isinstance(node, list):
             for label, v in (('action unknown', node[:-1] + ['JUMP']), ('action duplicate', node + [node[0]]), ('action empty', [])):
                 yield label, path, with_value(tree, path, v)
@@ -431,12 +440,13 @@ def judge_mutation(mutated, seeds, debug=True):
 
 
 def _mut_work(job):
-    name, path, i, parts, seeds = job
+    name, path, i, parts, seeds = job[:5]
+    only = job[5] if len(job) > 5 else None
     tree = configs.load(path)
     n = rej = 0
     fails = []
     for j, (label, p, mutated) in enumerate(mutations(tree)):
-        if j % parts != i:
+        if j % parts != i or (only and not label.startswith(only)):
             continue
         n += 1
         cls, m = judge_mutation(mutated, seeds)
@@ -637,11 +647,12 @@ def run(rep, tier, seed):
         parts = 8
         for i in range(parts):
             mjobs.append((name, path, i, parts, seeds[:1]))
+    coin = [(name, path, 0, 1, seeds[:1], 'unaccepted') for name, path in cfgs if name == 'coin_env']
     if tier == 'quick':
         keep = {'keydoor.5x5', 'dynamic_obstacles.5x5', 'memory_four_rooms.7x7', 'crossing.5x5', 'teleport.5x5', 'empty.4x4', 'four_rooms.7x7', 'memory.5x5'}
         mjobs = [j for j in mjobs if j[0] in keep]
     mn = mrej = 0
-    for n, rej, fl in pmap(_mut_work, mjobs):
+    for n, rej, fl in pmap(_mut_work, mjobs + coin):
         mn += n
         mrej += rej
         fails.extend(fl)
